@@ -11,3 +11,6 @@ import DateutilVerif.Properties.C04
 #print axioms C04.roundtrip_generic
 #print axioms C04.generic_ambiguous
 #print axioms C04.roundtrip_tzical_cycle
+#print axioms C04.roundtrip_tzlocal
+#print axioms C04.tzlocal_window_north
+#print axioms C04.tzlocal_window_south
